@@ -649,24 +649,22 @@ class Reaction(Object):
                 self._genes.add(new_gene)
                 new_genes.add(new_gene)
 
-        # Make the genes aware that it is involved in this reaction
+        # Make the genes aware that it is involved in this reaction. A reaction
+        # that was removed from a model keeps its genes but is no longer listed
+        # by them, so record both sides of each association for the context.
         for g in self._genes:
+            state = (g in old_genes, self in g._reaction)
             self._associate_gene(g)
             if context:
-                context(partial(self._dissociate_gene, g))
+                context(partial(self._restore_gene_association, g, *state))
 
         # make the old genes aware they are no longer involved in this reaction
         for g in old_genes.difference(new_genes):
             try:
-                # A reaction that was removed from a model keeps its genes but is
-                # no longer listed by them: only restore what was there.
-                listed = self in g._reaction
+                state = (True, self in g._reaction)
                 self._dissociate_gene(g)
                 if context:
-                    if listed:
-                        context(partial(self._associate_gene, g))
-                    else:
-                        context(partial(self._genes.add, g))
+                    context(partial(self._restore_gene_association, g, *state))
             except KeyError:
                 warn(f"could not remove old gene {g.id} from reaction {self.id}")
             if g in self._genes:  # if an old gene is still a new gene
@@ -1538,6 +1536,29 @@ class Reaction(Object):
         """
         self._genes.discard(cobra_gene)
         cobra_gene._reaction.discard(self)
+
+    def _restore_gene_association(
+        self, cobra_gene: Gene, has_gene: bool, is_listed: bool
+    ) -> None:
+        """Put both sides of the association with a gene back to a recorded state.
+
+        Parameters
+        ----------
+        cobra_gene : cobra.core.Gene.Gene
+        has_gene : bool
+            Whether the reaction had the gene.
+        is_listed : bool
+            Whether the gene listed the reaction.
+
+        """
+        if has_gene:
+            self._genes.add(cobra_gene)
+        else:
+            self._genes.discard(cobra_gene)
+        if is_listed:
+            cobra_gene._reaction.add(self)
+        else:
+            cobra_gene._reaction.discard(self)
 
     def knock_out(self) -> None:
         """Knockout reaction by setting its bounds to zero."""
